@@ -75,7 +75,7 @@ def judgeNew (wf : Workflow) (ts : List Target) (o : Obs) : Option String :=
   else if acked then
     if reached .CONFIGURED o then some "-"
     else if emptyWorkflow wf then some "deploy_empty_workflow"
-    else if earlyRunning wf.tasks then some "deploy_running_update_dropped"
+    else if earlyRunning wf.tasks || wf.notifyLost then some "deploy_misses_active"
     else if noncritLaunchFail wf.tasks then some "deploy_noncritical_blocks"
     else if noTargets ts then some "configure_nothing_hangs"
     else if singleNoncritFail ts then some "single_target_ignores_critical"
